@@ -4,12 +4,14 @@ import os
 from .. import core, patterns as P
 
 ALL9 = ["GET", "POST", "PUT", "PATCH", "DELETE", "OPTIONS", "HEAD", "CONNECT", "TRACE"]
-POOL = ["/a/{x}", "/{x}/{y}", "/a/1", "/a/{x:dig}", "/{x}", "/a[/{x}]", "/*", "/a/{x}/b"]
+POOL = ["/a/{x}", "/{x}/{y}", "/a/1", "/a/{x:dig}", "/{x}", "/a[/{x}]", "/*", "/a/{x}/b", "/a/a[.1]"]
 TABLES = {
     "overlap": [("/a/{x}", ["GET"]), ("/{x}/{y}", ["GET"]), ("/a/1", ["GET"]), ("/a/{x:dig}", ["POST"]), ("/{x}", ["GET", "POST"])],
     "headget": [("/a/{x}", ["GET"]), ("/{x}", ["HEAD"]), ("/a[/{x}]", ["GET"]), ("/{x}/{y}", ["HEAD", "DELETE"])],
     # overlapping dynamic routes whose method sets intersect: what one method cached must not answer another method
     "methodsets": [("/a/{x:dig}", ["POST", "PUT"]), ("/a/{x}", ["GET", "POST"]), ("/{x}/{y}", ["PUT", "DELETE"])],
+    # a dynamic route WITHOUT variables (optional part only): it is matched by regex and must be cached like the others
+    "optional": [("/a/a[.1]", ["GET"]), ("/a/{x}", ["GET", "POST"])],
     "notallowed": [("/a/{x}", ["POST"]), ("/a/{x:dig}", ["PUT"]), ("/{x}/{y}", ["DELETE"]), ("/*", ALL9), ("/a/{x}/b", ["GET"])],
 }
 REQUESTS = [("GET", "/a/1"), ("GET", "/a/a"), ("POST", "/a/1"), ("HEAD", "/a/1"), ("GET", "/1/a"), ("DELETE", "/a/a"),
